@@ -170,6 +170,131 @@ fn fork_expect(v: &IxView, data: Vec<u8>, expect_ok: bool, expect_code: u32, wha
     }
 }
 
+/// By-token-amounts deposits on copies of the state in which the pool's price sits at the edges of the position's range (one and
+/// two units inside either bound, on the bounds, in the middle) and the maxima sit at the edges of what the derivation can
+/// hold: the smallest token-A (token-B) maximum whose one-sided liquidity reaches 2^64 and 2^128, its neighbours, the largest
+/// u64. Whatever is derived there is still the largest liquidity whose cost fits both maxima, and is charged at its exact cost.
+fn by_amounts_price_edge_probes(v: &IxView, c: &Call, x: &Ctx, idx: usize, salt: u64, cov: &mut Coverage, out: &mut Vec<Violation>) {
+    let (lo, hi) = (x.pre_pos.lower, x.pre_pos.upper);
+    if lo >= hi {
+        return;
+    }
+    let (pl, pu) = (model::sqrt_price_of_tick(lo), model::sqrt_price_of_tick(hi));
+    let mid_t = lo + (hi - lo) / 2;
+    let states: [(u128, i32, &str); 7] = [
+        (pu - 1, hi - 1, "one-below-upper"),
+        (pu - 2, hi - 1, "two-below-upper"),
+        (pl + 1, lo, "one-above-lower"),
+        (pl, lo, "on-lower"),
+        (pu, hi, "on-upper"),
+        (pl - 1, lo - 1, "one-below-lower"),
+        (model::sqrt_price_of_tick(mid_t), mid_t, "middle"),
+    ];
+    let mut rng = crate::rng::Rng::new(salt ^ 0xC08E);
+    let one = BigUint::from(1u8);
+    let two128 = model::two64() * model::two64();
+    for (p, t, label) in states {
+        if p < crate::decode::MIN_SQRT_PRICE || p > crate::decode::MAX_SQRT_PRICE {
+            continue;
+        }
+        // edges of the maxima
+        let mut cand_a: Vec<u64> = vec![u64::MAX, 1 << 63, 1_000_000_000_000_000_000, rng.next_u64() | 1];
+        let mut cand_b: Vec<u64> = vec![u64::MAX, 1 << 63, 1_000_000_000_000_000_000, rng.next_u64() | 1];
+        if t >= lo && t < hi && p < pu {
+            // one-sided liquidity from A alone: max_a * pu * p / (2^64 * (pu - p))
+            for lim in [two128.clone(), model::two64()] {
+                let num = &lim * model::two64() * model::bu(pu - p);
+                let den = model::bu(pu) * model::bu(p);
+                let th = (&num + &den - &one) / &den;
+                for cnd in [&th - &one, th.clone(), &th + &one, &th * BigUint::from(2u8) + BigUint::from(3u8), &th + BigUint::from(rng.below(1 << 20))] {
+                    if let Some(m) = model::to_u64(&cnd) {
+                        if m > 0 {
+                            cand_a.push(m);
+                        }
+                    }
+                }
+            }
+        }
+        if t >= lo && p > pl {
+            // one-sided liquidity from B alone: max_b * 2^64 / (min(p, pu) - pl)
+            let top = p.min(pu);
+            for lim in [two128.clone(), model::two64()] {
+                let th = (&lim * model::bu(top - pl) + model::two64() - &one) / model::two64();
+                for cnd in [&th - &one, th.clone(), &th + &one] {
+                    if let Some(m) = model::to_u64(&cnd) {
+                        if m > 0 {
+                            cand_b.push(m);
+                        }
+                    }
+                }
+            }
+        }
+        for _ in 0..5 {
+            let max_a = *rng.pick(&cand_a);
+            let max_b = *rng.pick(&cand_b);
+            let mut fork = v.pre.clone();
+            let Some(pa) = fork.get(&x.pool_key).cloned() else { return };
+            let mut pd = (*pa.data).clone();
+            pd[65..81].copy_from_slice(&p.to_le_bytes());
+            pd[81..85].copy_from_slice(&t.to_le_bytes());
+            fork.put(x.pool_key, rt::Account { lamports: pa.lamports, data: std::rc::Rc::new(pd), owner: pa.owner, executable: false });
+            let mut seen: Vec<Pubkey> = Vec::new();
+            for (k, amt) in [(c.a("token_owner_account_a"), u64::MAX), (c.a("token_owner_account_b"), u64::MAX), (x.pre_pool.vault_a, 0u64), (x.pre_pool.vault_b, 0u64)] {
+                if seen.contains(&k) {
+                    return;
+                }
+                seen.push(k);
+                let Some(a) = fork.get(&k).cloned() else { return };
+                if a.data.len() < 72 {
+                    return;
+                }
+                let mut dd = (*a.data).clone();
+                dd[64..72].copy_from_slice(&amt.to_le_bytes());
+                fork.put(k, rt::Account { lamports: a.lamports, data: std::rc::Rc::new(dd), owner: a.owner, executable: false });
+            }
+            let mut ix2 = v.ix.clone();
+            ix2.data[9..17].copy_from_slice(&max_a.to_le_bytes());
+            ix2.data[17..25].copy_from_slice(&max_b.to_le_bytes());
+            ix2.data[25..41].copy_from_slice(&crate::decode::MIN_SQRT_PRICE.to_le_bytes());
+            ix2.data[41..57].copy_from_slice(&crate::decode::MAX_SQRT_PRICE.to_le_bytes());
+            let r = rt::exec_tx_simple(&mut fork, &Tx { ixs: vec![ix2] });
+            let cost = |l: u128| model::liquidity_amounts(l, t, p, lo, hi, true);
+            cov.eval(format!("by_token_amounts_price_edge|{}|ok={}", label, r.ok));
+            if !r.ok {
+                let code = r.ix_outcomes.last().map(|o| o.code).unwrap_or(0);
+                let (a1, b1) = cost(1);
+                if (code == 6012 || code == crate::rt::ERR_PANIC) && a1 <= BigUint::from(max_a) && b1 <= BigUint::from(max_b) {
+                    out.push(viol("refused_although_liquidity_fits", idx, format!("(copy of the state, price {} tick {} = {} of the range {}..{}) increase_liquidity_by_token_amounts_v2 with maxima {} / {} {} although one unit of liquidity costs {} / {} and fits", p, t, label, lo, hi, max_a, max_b, if code == 6012 { "is refused as liquidity zero" } else { "dies in a panic" }, a1, b1)));
+                    return;
+                }
+                continue;
+            }
+            cov.probe("by_token_amounts_price_edge_landed");
+            let Some(post_pos) = fork.data(&x.pos_key).and_then(decode::position) else { continue };
+            let liq = post_pos.liquidity.wrapping_sub(x.pre_pos.liquidity);
+            let (ea, eb) = cost(liq);
+            let va = fork.data(&x.pre_pool.vault_a).and_then(decode::token_account).map(|t| t.amount).unwrap_or(0);
+            let vb = fork.data(&x.pre_pool.vault_b).and_then(decode::token_account).map(|t| t.amount).unwrap_or(0);
+            let at = format!("(copy of the state, price {} tick {} = {} of the range {}..{}, maxima {} / {})", p, t, label, lo, hi, max_a, max_b);
+            if BigUint::from(va) != ea || BigUint::from(vb) != eb {
+                out.push(viol("token_amounts", idx, format!("{} derived L={}: the vaults received {} / {} but the exact rounded-up cost is {} / {}", at, liq, va, vb, ea, eb)));
+                return;
+            }
+            if ea > BigUint::from(max_a) || eb > BigUint::from(max_b) {
+                out.push(viol("token_max_exceeded", idx, format!("{} derived liquidity {} costs {} / {}", at, liq, ea, eb)));
+                return;
+            }
+            if liq < u128::MAX {
+                let (na, nb) = cost(liq + 1);
+                if na <= BigUint::from(max_a) && nb <= BigUint::from(max_b) {
+                    out.push(viol("not_largest_liquidity", idx, format!("{} derived liquidity {} but {} would also fit (cost {} / {})", at, liq, liq + 1, na, nb)));
+                    return;
+                }
+            }
+        }
+    }
+}
+
 impl Monitor for C08 {
     fn name(&self) -> &'static str {
         "C08"
@@ -445,6 +570,9 @@ impl Monitor for C08 {
                         if na <= BigUint::from(max_a) && nb <= BigUint::from(max_b) {
                             out.push(viol("not_largest_liquidity", ev.idx, format!("derived liquidity {} but {} would also fit the maxima {} / {} (cost {} / {})", liq, liq + 1, max_a, max_b, na, nb)));
                         }
+                    }
+                    if out.is_empty() && ev.salt % 3 != 0 {
+                        by_amounts_price_edge_probes(&v, &c, &x, ev.idx, ev.salt, cov, &mut out);
                     }
                 }
                 "reposition_liquidity_v2" => {
